@@ -321,3 +321,13 @@ Example C11_ex_below_file :
    (r, map e_path (snapshot sb), map e_path (snapshot sl))) =
   (RErr (EW KENOTDIR), [[47]; [47;100]; [47;100;47;102]; [47;101]; [47;103]]%N, [[47]; [47;100]; [47;100;47;102]]%N).
 Proof. vm_compute. repeat split; reflexivity. Qed.
+
+(* ---- tie of repair 98178ad to the source: copyFileToLayer opens the handle the copy READS from with O_RDWR
+   where the caller asked for O_WRONLY (a write-only descriptor cannot be read on the operating system: WriteFile
+   and OpenFile(O_WRONLY) through a cache over an OsFs base failed with EBADF on every name not yet cached).
+   MemMapFs lets a write-only handle read, so no step of the model can tell the two source shapes apart; the
+   theorem states what the translator read from today's source, the operating-system scenario of the C11 harness
+   (c11refresh.go, signatures call-fails-through-cache:OpenFile:os-base:...) exercises the behaviour itself *)
+Theorem C11_today_copy_reads_through_readable_handle : copyfiletolayer_reads_through_rdwr = 1.
+Proof. exact copyfiletolayer_reads_through_rdwr_is_1. Qed.
+Print Assumptions C11_today_copy_reads_through_readable_handle.
